@@ -18,7 +18,7 @@ LEVEL = 'exploration'
 RULE = ('case = (content class, format, filename, time, compressor, signer list and order, equal/differing signature times, encryption stage, transport); one '
         'evaluation per export parsed + per import compared; non-trivial = at least one signer or a compressor or encryption; distinct = distinct case descriptors')
 ASSUMPTIONS = ['vf.ref.grammar recogniser of RFC 4880 11.3', 'zlib / bz2 decompressors']
-MIN_COUNTERS = {'quick': {'exports_recognised': 300, 'onepass_sets_checked': 150, 'imports_compared': 500, 'compressors_seen': 4, 'foreign_framings': 60},
+MIN_COUNTERS = {'quick': {'exports_recognised': 300, 'onepass_sets_checked': 150, 'imports_compared': 400, 'compressors_seen': 4, 'foreign_framings': 50},
                 'thorough': {'exports_recognised': 4000}}
 BUDGET = {'quick': (260, 800), 'thorough': (1800, 3600)}
 TECHNIQUE = 'runtime monitoring: grammar-recogniser monitor (independent RFC 4880 11.3 parser) + differential import comparison'
